@@ -7,7 +7,7 @@ CONSTANTS
   Rects <- WindowRects
   MaxCells = 3
   MaxMerges = 1
-  MaxSheets = 1
+  MaxSheets = 2
   Rots = {0, 5}
   Layouts <- LayStd
 INVARIANTS TypeOK PlacedByRef FunctionLike MergeBlank
